@@ -4,7 +4,7 @@ to a scratch worktree of /repo HEAD and runs every claimed quick check: all must
 import json, os, subprocess, sys, tempfile, glob, concurrent.futures as cf
 VERIF='/verif'
 props=[c['property_id'] for c in json.load(open(f'{VERIF}/MANIFEST.json'))['checks']]
-patches=sys.argv[1:] or sorted(glob.glob(f'{VERIF}/neutral/*.diff'))
+patches=[os.path.abspath(p) for p in sys.argv[1:]] or sorted(glob.glob(f'{VERIF}/neutral/*.diff'))
 def run(patch):
     wt=tempfile.mkdtemp(prefix='wt_nt.',dir='/tmp'); os.rmdir(wt)
     subprocess.run(['git','-C','/repo','worktree','add','-f','--detach',wt,'HEAD'],capture_output=True)
